@@ -39,7 +39,10 @@ NUMS = ["1", "2", "3", "10", "1.5", "0.5", "2.25",
         # decimal fractions that are not exact in binary floating point but give a whole number of bytes with a decimal unit
         "2.01", "4.02", "8.03", "0.3", "1.001",
         # below zero and beyond a 64-bit integer: still numbers
-        "-1", "-0.5", "9000000000"]
+        "-1", "-0.5", "9000000000",
+        # fractions whose product with a large unit lies within a few thousandths of a byte of a whole number WITHOUT being
+        # one (1.7509t = 1925134909072.9984 bytes): a rounding tolerance must not take them for whole
+        "1.7509", "10.058", "8.308", "12.067", "64.003761", "14.0008103"]
 OPS = ["=", "!=", ">", ">=", "<", "<=", "eq"]
 
 DOC_TABLE = [
@@ -349,7 +352,7 @@ def check_literal(out, c, base):
     n = int(math.floor(exact))
     lit = c["num"] + c["spelled"]
     files = {"lo": n - 1, "eq": n, "hi": n + 1}
-    if n < 0 or n > 2 ** 42:
+    if n < 0 or n > 15 * 2 ** 40:         # (ext4 holds files up to 16 TiB)
         files = {"lo": 0, "eq": 1, "hi": 4096}       # every file is above (below) such a literal
     for nm, sz in files.items():
         if sz < 0:
